@@ -20,7 +20,7 @@ def run(pid, tier, replay):
         chk.cov["mutant_models_rejected"] = ["mc/MC_Serial_mutant.cfg"]
     # conformance: real threads around the wrap and the zero skip, counter preset through the cfg(zbus_verif) hook
     runs = []
-    per = 2000 if chk.quick else 20000
+    per = 2000 if chk.quick else 6000
     threads = 8 if chk.quick else 16
     starts = [0, 1, 2**32 - 1, 2**32 - 2, 2**32 - per, 2**32 - 3 * per, 2**31, 12345]
     if replay:
@@ -28,7 +28,7 @@ def run(pid, tier, replay):
         starts = [rp["replay"]["start"]]
     out = chk.path("serials.ndjson")
     with open(out, "w") as f:
-        for i, st in enumerate(starts * (1 if chk.quick else 3)):
+        for i, st in enumerate(starts * (1 if chk.quick else 2)):
             tmp = chk.path("s%d.ndjson" % i)
             core.run_bin(bus, ["serial", tmp, threads, per, st % 2**32])
             o = json.loads(open(tmp).read())
@@ -36,7 +36,7 @@ def run(pid, tier, replay):
             f.write(json.dumps(o) + "\n")
             runs.append(st)
     # many short races around 0 / the wrap in one process: the window of a non-atomic zero skip is a few instructions wide
-    rounds = 4000 if chk.quick else 60000
+    rounds = 4000 if chk.quick else 30000
     if not replay:
         rp_out = chk.path("rounds.ndjson")
         core.run_bin(bus, ["serial-rounds", rp_out, threads, 3, rounds], timeout=3000)
